@@ -181,7 +181,8 @@ func (pTypes *Types) MarshalYAML() (any, error) {
 	types := *pTypes
 	switch len(types) {
 	case 0:
-		return nil, nil
+		// an empty list is not the same as no type at all: it comes back as it was read
+		return []string{}, nil
 	case 1:
 		return types[0], nil
 	default:
